@@ -161,9 +161,31 @@ func C11(tier string) {
 		}
 		return deep
 	}
-	r.Rule(fmt.Sprintf("%d scenarios on the overlay-instrumented real code, fresh package state per execution: first-use races of the lazily built 16-bit tables (2 and 3 goroutines, 1-2 calls each, per space and across srgb/displayp3), image transforms and prism.ConvertImageTo* with parallelism 2 and 3 on 3x2 images down every destination path (tables first touched inside the workers), two image transforms at once, two concurrent Loads per loader, concurrent adaptations, one meta.Data / one icc.Profile / one source image shared by two goroutines, 8-bit and 16-bit entry points meeting at first use; iterative context bounding with happens-before state caching (a state = the multiset of per-goroutine history hashes, each history folding in the history of every write it read or overwrote and every release it acquired; a state reached again with no fewer preemptions used is not expanded again); 2-goroutine single-call first-use scenarios: ALL interleavings of hooked operations guaranteed; the others: all schedules with <= %d preemptions guaranteed (one more for the two-call colour scenarios, one or two fewer for 4 goroutines and parallelism 5/11), then one more preemption at a time while the per-scenario budget lasts, ending early when a pass was never limited by the bound (= all interleavings); the bound completed per scenario is in coverage.scenarios; the explorer first has to give the known verdict on 9 litmus programs (racy and locked counters, broken double-checked locking, Once with 2 and 3 goroutines, lock-order inversion with a 1-preemption counterexample, WaitGroup hand-over, unsynchronised flag, pooled-buffer aliasing), with and without state caching; every execution is checked by a vector-clock happens-before race detector (edges: go, Once, WaitGroup, Mutex) and against each call's value when executed alone; plus a free-running go build -race pass of the same scenario bodies of four larger image workloads (100x120, more than 20,000 table look-ups) and of 16 and 64 goroutines released together at first use across all spaces under GOMAXPROCS 16, 4 and 1 (40 fresh-state trials each), which are too big to explore; states = scheduling decision points, transitions = thread switches taken, traces = executions", len(scens), deep))
+	r.Rule(fmt.Sprintf("%d scenarios on the overlay-instrumented real code, fresh package state per execution: first-use races of the lazily built 16-bit tables (2 and 3 goroutines, 1-2 calls each, per space and across srgb/displayp3), image transforms and prism.ConvertImageTo* with parallelism 2 and 3 on 3x2 images down every destination path (tables first touched inside the workers), two image transforms at once, two concurrent Loads per loader, concurrent adaptations, one meta.Data / one icc.Profile / one source image shared by two goroutines, 8-bit and 16-bit entry points meeting at first use; iterative context bounding with happens-before state caching (a state = the multiset of per-goroutine history hashes, each history folding in the history of every write it read or overwrote and every release it acquired; a state reached again with no fewer preemptions used is not expanded again); 2-goroutine single-call first-use scenarios: ALL interleavings of hooked operations guaranteed; the others: all schedules with <= %d preemptions guaranteed (one more for the two-call colour scenarios, one or two fewer for 4 goroutines and parallelism 5/11), then one more preemption at a time while the per-scenario budget lasts, ending early when a pass was never limited by the bound (= all interleavings); the bound completed per scenario is in coverage.scenarios; the explorer first has to give the known verdict on 12 litmus programs (racy and locked counters, broken double-checked locking, Once with 2 and 3 goroutines, lock-order inversion with a 1-preemption counterexample, WaitGroup hand-over, unsynchronised flag, atomic publication, atomic flag claimed too early, atomic against plain access, pooled-buffer aliasing), with and without state caching; every execution is checked by a vector-clock happens-before race detector (edges: go, Once, WaitGroup, Mutex) and against each call's value when executed alone; plus a free-running go build -race pass of the same scenario bodies of four larger image workloads (100x120, more than 20,000 table look-ups) and of 16 and 64 goroutines released together at first use across all spaces under GOMAXPROCS 16, 4 and 1 (40 fresh-state trials each), which are too big to explore; states = scheduling decision points, transitions = thread switches taken, traces = executions", len(scens), deep))
 	r.Assume("interleavings are sequentially consistent; weak-memory behaviours are covered through the race oracle (race-free programs have only SC executions); consecutive same-kind accesses by one goroutine to the same 8-byte cell are one scheduling step; accesses through pointers whose address was taken, and code outside the instrumented packages, are covered only by the free-running -race pass")
 
+	runFree := func(name string) {
+		// free-running race detector pass
+		iters := 20
+		if strings.HasPrefix(name, "image/") || strings.HasPrefix(name, "meta/") {
+			iters = 200
+		}
+		t0 := time.Now()
+		fc := exec.Command(binRace, "free", name, fmt.Sprint(iters))
+		fc.Env = append(os.Environ(), "GORACE=halt_on_error=1")
+		fo, ferr := fc.CombinedOutput()
+		_ = t0
+		if bytes.Contains(fo, []byte("DATA RACE")) {
+			r.Violate("go-race/"+name, fmt.Sprintf("go's race detector on the free-running scenario %q: %s", name, firstRace(fo)), map[string]interface{}{"scenario": name, "output": tail(fo, 2500)}, nil)
+		} else if bytes.Contains(fo, []byte("VALUE-MISMATCH")) {
+			r.Violate("free-value/"+name, fmt.Sprintf("free-running scenario %q: %s", name, tail(fo, 400)), nil, nil)
+		} else if ferr != nil {
+			r.Violate("free-crash/"+name, fmt.Sprintf("free-running scenario %q failed: %v %s", name, ferr, tail(fo, 800)), nil, nil)
+		}
+	}
+	if len(st.Channels) > 0 {
+		r.Cap(fmt.Sprintf("the tree uses channel operations (%s ...), which the controlled scheduler does not model: interleaving exploration skipped, free-running -race pass only", st.Channels[0]))
+	}
 	var mu sync.Mutex
 	var reports []c11Report
 	sem := make(chan bool, ev.Workers())
@@ -197,6 +219,11 @@ func C11(tier string) {
 				}
 				return
 			}
+			if len(st.Channels) > 0 {
+				// unmodelled blocking operations: only the free-running pass below
+				runFree(s.name)
+				return
+			}
 			cmd := exec.Command(bin, "explore", s.name, fmt.Sprint(boundFor(s)), fmt.Sprint(budget))
 			cmd.Env = append(os.Environ(), "GOMAXPROCS=2")
 			var stderr bytes.Buffer
@@ -219,23 +246,7 @@ func C11(tier string) {
 				r.Violate(key, fmt.Sprintf("scenario %q, schedule %s (choices %v): %s", s.name, v.Schedule, v.Choices, v.Desc),
 					map[string]interface{}{"scenario": s.name, "choices": v.Choices, "schedule": v.Schedule, "got": v.Got, "want": v.Want, "replay": fmt.Sprintf("tools/c11dev.sh /tmp/c11 && /tmp/c11/harness replay %q %s", s.name, strings.Trim(strings.ReplaceAll(fmt.Sprint(v.Choices), " ", ","), "[]"))}, nil)
 			}
-			// free-running race detector pass
-			iters := 20
-			if strings.HasPrefix(s.name, "image/") || strings.HasPrefix(s.name, "meta/") {
-				iters = 200
-			}
-			t0 := time.Now()
-			fc := exec.Command(binRace, "free", s.name, fmt.Sprint(iters))
-			fc.Env = append(os.Environ(), "GORACE=halt_on_error=1")
-			fo, ferr := fc.CombinedOutput()
-			_ = t0
-			if bytes.Contains(fo, []byte("DATA RACE")) {
-				r.Violate("go-race/"+s.name, fmt.Sprintf("go's race detector on the free-running scenario %q: %s", s.name, firstRace(fo)), map[string]interface{}{"scenario": s.name, "output": tail(fo, 2500)}, nil)
-			} else if bytes.Contains(fo, []byte("VALUE-MISMATCH")) {
-				r.Violate("free-value/"+s.name, fmt.Sprintf("free-running scenario %q: %s", s.name, tail(fo, 400)), nil, nil)
-			} else if ferr != nil {
-				r.Violate("free-crash/"+s.name, fmt.Sprintf("free-running scenario %q failed: %v %s", s.name, ferr, tail(fo, 800)), nil, nil)
-			}
+			runFree(s.name)
 		}()
 	}
 	wg.Wait()
